@@ -44,7 +44,9 @@ def _extract(job):
                 for i in range(d[0]):
                     edges.append((c+1, i, j, k))
     P = np.array(pts2, dtype=float)/2.0
-    freq = 1.0
+    # frequency domain and Laplace domain (negative "frequency": s real,
+    # real-valued fields) alternate between the instances
+    freq = 1.0 if seed % 2 else -2.0
     model = emg3d.Model(grid, 10**rng.uniform(-1, 1, shape),
                         mapping='Conductivity')
     smu0 = emg3d.Field(grid, frequency=freq).smu0
@@ -61,6 +63,10 @@ def _extract(job):
             rec = (P[:, 0], P[:, 1], P[:, 2], az, el)
             Rel[c][:, n] = np.real(fields.get_receiver(ef, rec, 'linear'))
             v = fields.get_receiver(hf, rec, 'linear')*smu0
+            if freq < 0 and (np.iscomplexobj(hf.field) or
+                             np.iscomplexobj(v)):
+                notes.append("Laplace domain: magnetic field / response "
+                             "is not real-valued")
             if np.nanmax(np.abs(np.nan_to_num(v.imag))) > 1e-12:
                 notes.append("magnetic functional not real after removing "
                              "s mu_0")
@@ -84,6 +90,11 @@ def _extract(job):
                             grid, coo, freq).field*smu0)
                 except ValueError:
                     vec = None
+                except Exception as e:  # noqa
+                    vec = None
+                    ok = False
+                    notes.append(f"point-source vector raised "
+                                 f"{type(e).__name__}: {str(e)[:80]}")
                 for name, arr, ent in (("rec", row, ent_r),
                                        ("src", vec, ent_s)):
                     if arr is None or (name == "rec" and nan):
@@ -105,7 +116,8 @@ def _extract(job):
     # oblique orientations: rotation factors times the axis functionals
     obs = []
     ef = emg3d.Field(grid, frequency=freq)
-    ef.field[:] = rng.standard_normal(L.ne) + 1j*rng.standard_normal(L.ne)
+    ef.field[:] = rng.standard_normal(L.ne) + (
+        1j*rng.standard_normal(L.ne) if freq > 0 else 0.0)
     for _ in range(6):
         az, el = rng.uniform(-180, 180), rng.uniform(-90, 90)
         ip = rng.integers(len(P))
@@ -122,6 +134,8 @@ def _extract(job):
                 obs.append("oblique point source is not the transpose")
         except ValueError:
             pass
+        except Exception as e:  # noqa
+            obs.append(f"oblique point source raised {type(e).__name__}")
     if obs:
         out[0]["obs"] = False
         out[0]["notes"] = out[0]["notes"] + obs
